@@ -465,6 +465,7 @@ class Node:
             raise ValueError("Node.reattach can only be called on a detached node.")
         if not isinstance(new_creator, Node):
             raise TypeError(f"Argument new_creator must be a Node, got {type(new_creator)}")
+        self.graph.raise_if_created_by(self, new_creator)
         detached = new_creator.is_detached()
         old_creator, old_creator_detached = self.creator_and_detached()
         self.db.execute(
@@ -857,6 +858,8 @@ class Trellis:
             if not detached:
                 raise ConsistencyError(f"Node ({node.key()}) already exists and is not detached.")
 
+            if creator is not None and creator.i == node.i:
+                raise GraphError(f"A node cannot be recreated by itself: {node.key()}")
             # Get the old creator before this information is lost.
             old_creator, old_creator_detached = node.creator_and_detached()
             # Replace the old creator by the new one.
@@ -905,6 +908,31 @@ class Trellis:
         node.initialize_row(**kwargs)
         node.validate_row()
         return node
+
+    def raise_if_created_by(self, node: Node, creator: Node | None) -> None:
+        """Raise when `creator` is `node` itself or one of its (recursive) products.
+
+        A detached node can be recycled by any creator, also by a node in its own subtree,
+        e.g. a detached step that is still running and defines its own (former) creator again.
+        `Node.reattach` keeps the products of the node, unlike the recycle branch of `create`,
+        so making that node the creator would close a cycle of creator links:
+        the whole cycle would be cut off from the root for good,
+        and the recursive queries that walk from a creator to its products
+        (`RECURSIVE_CHECK_WITH_PRODUCTS` in `step.py`, `FILL_SAFE_UPDATE` in `scheduler.py`)
+        never terminate on a cycle.
+
+        Raises
+        ------
+        GraphError
+            When `node` is `creator` or a (recursive) creator of `creator`.
+        """
+        current = creator
+        while current is not None and not isinstance(current, Root):
+            if current.i == node.i:
+                raise GraphError(
+                    f"A node cannot be recreated by itself or by one of its own products: {node.key()}"
+                )
+            current = current.creator()
 
     def try_recycle(
         self, node_type: type[NodeType], creator: Node, label: str = "", **kwargs
